@@ -11,6 +11,7 @@ from weakref import finalize, ref
 
 import numpy as np
 
+import mygrad._utils as _utils
 from mygrad._utils import ContextTracker, WeakRef, WeakRefIterable
 
 if TYPE_CHECKING:  # pragma: no cover
@@ -316,6 +317,8 @@ def turn_memory_guarding_off():
     """
     global MEM_GUARD
     MEM_GUARD = False
+    if _utils._VERIF_EVENTS is not None:
+        _utils._verif_emit("turn_off")
 
 
 def turn_memory_guarding_on():
@@ -371,6 +374,8 @@ def turn_memory_guarding_on():
     """
     global MEM_GUARD
     MEM_GUARD = True
+    if _utils._VERIF_EVENTS is not None:
+        _utils._verif_emit("turn_on")
 
 
 def mem_guard_active() -> bool:
